@@ -43,7 +43,9 @@ def gcm_init_case(img, func, aad_len):
     aescases._eq(out, ["C07"], "gcm-init:in_length", "%s: context in_length" % c.name, g(24, 64), 0, 64)
     aescases._eq(out, ["C07"], "gcm-init:partial_block_length", "%s: context partial_block_length is cleared" % c.name, g(80, 64), 0, 64)
     aescases._eq(out, ["C07", "C02"], "gcm-init:orig_IV", "%s: J0 = IV || 0^31 1" % c.name, g(48, 128), j0, 128)
-    aescases._eq(out, ["C07", "C02"], "gcm-init:current_counter", "%s: counter starts at J0" % c.name, g(64, 128), j0, 128)
+    # the running counter is kept byte-reflected by the implementation (internal representation of the context)
+    j0r = cat([(ext(j0, 8 * k + 7, 8 * k), 8) for k in range(16)])
+    aescases._eq(out, ["C07", "C02"], "gcm-init:current_counter", "%s: counter starts at J0 (byte-reflected form)" % c.name, g(64, 128), j0r, 128)
     kdv = res.snap["key_data"]
     keyvars = set()
     for x in kdv:
